@@ -113,6 +113,9 @@ func (h *DestHandler) outboundBytesLocked() uint64 {
 }
 
 func destProtocol(dest string) defs.APIForwardDestProtocol {
+	// the scheme of a URL is case-insensitive, and the configuration accepts it as such
+	dest = strings.ToLower(dest)
+
 	switch {
 	case strings.HasPrefix(dest, "rtmp://"):
 		return defs.APIForwardDestProtocolRTMP
